@@ -78,17 +78,17 @@ FINDINGS = [
     _f(
         "C07-message-queue-delivery-stale-now", "MessageQueue", "past-emission", "message_delivery",
         "MessageQueue._deliver_message stamps the delivery event with the time read before `yield delivery_latency`; the engine discards it",
-        "messaging.queue_poll_events", {"arrivals_ns": [T]}, fix_proposed="C19-mq-delivery-stamp.diff", fix_proposed_by="C19",
+        "messaging.queue_poll_events", {"arrivals_ns": [T]}, fix_proposed="C19-mq-delivery-stamp.diff", fix_proposed_by="C19", fixed_commit="4a7a610",
     ),
     _f(
         "C07-topic-publish-stale-now", "Topic", "past-emission", "topic_message",
         "Topic.publish stamps every delivery event with the publish time although it returns them after the per-subscriber latencies",
-        "messaging.topic_fanout_events", {"arrivals_ns": [T]}, fix_proposed="C19-mq-delivery-stamp.diff", fix_proposed_by="C19",
+        "messaging.topic_fanout_events", {"arrivals_ns": [T]}, fix_proposed="C19-mq-delivery-stamp.diff", fix_proposed_by="C19", fixed_commit="4a7a610",
     ),
     _f(
         "C07-outbox-relay-stale-now", "OutboxRelay", "past-emission", "outbox_relay",
         "OutboxRelay._handle_poll stamps relay events inside the loop and returns the batch after the relay latencies have elapsed",
-        "microservice.outbox_relay_to_sink", {"arrivals_ns": [T, T]}, fix_proposed="C19-outbox-relay-stamp.diff", fix_proposed_by="C19",
+        "microservice.outbox_relay_to_sink", {"arrivals_ns": [T, T]}, fix_proposed="C19-outbox-relay-stamp.diff", fix_proposed_by="C19", fixed_commit="8aef5e0",
     ),
     _f(
         "C07-distributed-rate-limiter-forward-stale", "DistributedRateLimiter", "past-emission", "forward::Request",
